@@ -15,8 +15,15 @@ iterator-for / index-for / std::all_of|any_of|none_of, ternary / if-else, named 
 named constants / literals, `!p` / `p == nullptr`, casts spelt differently, helper functions of the same class or
 file / inline code all give the same tree.  Parameters, locals and loop variables are renamed positionally
 ($p0, $l0, $v0), members can be renamed by role by the caller.  What is not understood raises TranslateError.
+
+Constant arrays (local, namespace or class scope; `T t[ N] = { … }`, `std::array< T, N>`) normalise to the value
+('table', element type, (items…)); `t[ constant]` is the item, `sizeof( t) / sizeof( t[ 0])`, `std::size( t)`, `t.size()`
+the item count; `static_assert` is evaluated (false: TranslateError) and dropped.  A call `f< T…>( …)` of a file-local or
+same-class function template whose parameters are all type parameters given explicitly is inlined per instantiation
+(token substitution of the parameters).  With `ucast=True` conversions of non-constants to unsigned integer types are
+kept as ('ucast', bits, e) (used for the text functions, which are then evaluated over all argument values).
 """
-from logdefs_cxx import (TranslateError, Parser, text_of, is_p, is_id, TYPE_KW, lex)
+from logdefs_cxx import (TranslateError, Parser, Func, text_of, is_p, is_id, TYPE_KW, lex, split_top, Tok)
 
 INT_TYPES = {"int", "unsigned", "unsigned int", "long", "unsigned long", "long long", "unsigned long long", "short",
              "unsigned short", "size_t", "std::size_t", "id_t", "uint32_t", "std::uint32_t", "uint64_t", "int32_t", "int64_t",
@@ -47,6 +54,8 @@ class Ctx:
         self.file = func.file if func is not None else None
         self.mutated = set()
         self.counter = [0]
+        self.ucast = False          # keep conversions of non-constant values to unsigned types as ('ucast', bits, e)
+        self.const_locals = {}      # raw local name -> constant initialiser (for static_assert)
 
     def fresh(self, name):
         self.counter[0] += 1
@@ -171,10 +180,51 @@ class Norm:
             return None
         cls, nm = cands[0]
         init, _ = self.ix.consts[(cls, nm)]
-        e = self.parse_expr_tokens(init, "constant " + nm)
         sub = Ctx(None, frozenset(), 0)
         sub.cls = cls
+        if (cls, nm) in self.ix.arrays:
+            elem, size, is_std = self.ix.arrays[(cls, nm)]
+            items = [self.parse_expr_tokens(p, "table " + nm) for p in split_top(init) if p]
+            size_e = self.parse_expr_tokens(size, "size of table " + nm) if size else None
+            return self.make_table(text_of(elem), nm, size_e, items, is_std, {}, sub)
+        e = self.parse_expr_tokens(init, "constant " + nm)
         return self.nx(e, {}, sub)
+
+    def make_table(self, elem_ty, name, size_e, items, is_std, env, ctx):
+        """value of a constant array: ('table', canonical element type, (normalised items…))"""
+        if is_std and len(items) == 1 and items[0][0] == "initlist":
+            items = items[0][1]
+        vals = tuple(self.nx(x, env, ctx) for x in items)
+        if not vals:
+            raise TranslateError("table %s: no elements" % name)
+        for v in vals:
+            if v[0] == "initlist":
+                raise TranslateError("table %s: nested initialiser list not supported" % name)
+            if not self.pure(v, ctx):
+                raise TranslateError("table %s: element with side effects" % name)
+        if size_e is not None:
+            n = self.const_eval(self.nx(size_e, env, ctx), "size of table " + name)
+            if n != len(vals):
+                raise TranslateError("table %s: %d elements declared, %d initialised: not supported" % (name, n, len(vals)))
+        return ("table", self.canon_type(elem_ty, ctx.cls), vals)
+
+    def table_elem(self, tbl, i):
+        n = self.const_eval(i, "table index")
+        if not 0 <= n < len(tbl[2]):
+            raise TranslateError("table of %d elements read at index %d" % (len(tbl[2]), n))
+        return tbl[2][n]
+
+    def size_of(self, raw, env, ctx):
+        """sizeof( expression) as n * esize( element type) for a table, esize( element type) for one of its elements"""
+        if raw[0] == "index" or (raw[0] == "un" and raw[1] == "*"):
+            base = self.nx(raw[1] if raw[0] == "index" else raw[2], env, ctx)
+            if base[0] == "table":
+                return ("esize", base[1])
+        else:
+            a = self.nx(raw, env, ctx)
+            if a[0] == "table":
+                return ("bin", "*", ("num", len(a[2])), ("esize", a[1]))
+        raise TranslateError("sizeof operand `%s` not understood" % show(raw))
 
     # ------------------------------------------------------------------ expressions
     def nx(self, e, env, ctx):
@@ -218,18 +268,38 @@ class Norm:
             o, i = self.nx(e[1], env, ctx), self.nx(e[2], env, ctx)
             if i[0] == "idx" and i[1] == o:
                 return i[2]
+            if o[0] == "table" and (i[0] == "num" or const_like(i)):
+                return self.table_elem(o, i)
             return ("index", o, i)
+        if k == "sizeof_t":
+            return ("esize", self.canon_type(e[1], ctx.cls))
+        if k == "sizeof_e":
+            return self.size_of(e[1], env, ctx)
+        if k in ("table", "esize", "ucast"):
+            return e
         if k == "cast":
             a = self.nx(e[2], env, ctx)
             ty = self.canon_type(e[1], ctx.cls)
             if self.is_int_like(ty):
+                if ctx.ucast and ty in UNSIGNED_BITS and a[0] not in ("num", "bool") and self.enum_value(a[1] if a[0] == "id" else "") is None:
+                    return ("ucast", UNSIGNED_BITS[ty], a)
                 return a
             return ("cast", ty, a)
         if k == "call":
             args = [self.nx(a, env, ctx) for a in e[2]]
             f = self.nx(e[1], env, ctx) if e[1][0] != "id" or e[1][1] in env else ("id", self.canon_id(e[1][1]))
+            if f[0] == "tid" and f[1].split("::")[-1] in ("size", "min", "max") and f[1].startswith("std::"):
+                f = ("id", f[1])
             if f[0] == "member" and f[2] == "get" and not args:
                 return f[1]
+            if f[0] == "member" and f[1][0] == "table":
+                if f[2] == "size" and not args:
+                    return ("num", len(f[1][2]))
+                if f[2] == "at" and len(args) == 1:
+                    return self.nx(("index", f[1], args[0]), env, ctx)
+                raise TranslateError("member %s of a constant table not understood" % f[2])
+            if f == ("id", "std::size") and len(args) == 1 and args[0][0] == "table":
+                return ("num", len(args[0][2]))
             if f[0] == "lambda":
                 raise TranslateError("immediately invoked lambda is not supported")
             if f == ("id", "std::min") or f == ("id", "std::max"):
@@ -252,6 +322,8 @@ class Norm:
                     return ("num", self.const_eval(("bin", op, a, b)))
                 except TranslateError:
                     pass
+            if op == "/" and b[0] == "esize" and a[0] == "bin" and a[1] == "*" and a[2][0] == "num" and a[3] == b:
+                return a[2]             # sizeof( table) / sizeof( table[ 0])
             return ("bin", op, a, b)
         if k == "assign":
             return ("assign", e[1], self.nx(e[2], env, ctx), self.nx(e[3], env, ctx))
@@ -322,7 +394,7 @@ class Norm:
         """the Func to inline for this call, or None: member functions of the same class called without an object,
         and file-local (static / anonymous namespace) functions of the same file"""
         f = call[1]
-        if f[0] != "id" or ctx.func is None and ctx.cls is None:
+        if f[0] not in ("id", "tid") or ctx.func is None and ctx.cls is None:
             return None
         parts = f[1].split("::")
         name = parts[-1]
@@ -335,9 +407,53 @@ class Norm:
             if not cands and len(parts) == 1:
                 cands = [g for g in self.ix.funcs if g.name == name and g.cls is None and g.file == ctx.file
                          and ({"static", "anon-ns"} & g.specs) and len(g.params) == len(call[2])]
-        if len(cands) != 1 or cands[0].template or cands[0] is ctx.func:
+        if len(cands) != 1 or origin_of(cands[0]) is origin_of(ctx.func):
             return None
-        return cands[0]
+        g = cands[0]
+        if f[0] == "tid":
+            # function template called with explicit template arguments: inlined per instantiation
+            return self.instantiate(g, f[2]) if g.template else None
+        if g.template:
+            return None
+        return g
+
+    def instantiate(self, g, targs_text):
+        """the function template g with its type parameters replaced by the explicit arguments (token substitution, as
+        the compiler does it); None if g has other than plain type parameters or not all of them are given"""
+        if g.tparams is None:
+            return None
+        targs = [p for p in split_top(lex(targs_text, g.name)) if p]
+        if len(targs) != len(g.tparams) or not targs:
+            return None
+        cache = g.__dict__.setdefault("_inst", {})
+        key = " | ".join(text_of(a) for a in targs)
+        if key in cache:
+            return cache[key]
+        for a in targs:
+            core = [x for x in a if not (x[0] == "p" and x[1] in ("::", "*", "&", "<", ">", ","))]
+            if not core or any(x[0] != "id" for x in core):
+                return None             # a non-type template argument
+        sub = dict(zip(g.tparams, targs))
+
+        def subst(toks):
+            out = []
+            for k, x in enumerate(toks):
+                prev = toks[k - 1] if k else None
+                if x[0] == "id" and x[1] in sub and not (prev is not None and prev[0] == "p" and prev[1] in (".", "->", "::")):
+                    out.extend(sub[x[1]])
+                else:
+                    out.append(x)
+            return out
+
+        h = Func()
+        h.name, h.cls, h.file, h.specs, h.inits = g.name, g.cls, g.file, set(g.specs), []
+        h.params = [(subst(pt), pn) for pt, pn in g.params]
+        h.ret = subst(g.ret)
+        h.body = subst(g.body)
+        h.template, h.tparams = False, None
+        h._origin = g
+        cache[key] = h
+        return h
 
     def inline_env(self, g, args, ctx):
         env = {}
@@ -353,6 +469,7 @@ class Norm:
         c = Ctx(g, ctx.keep, ctx.depth + 1)
         c.counter = ctx.counter
         c.mutated = mutated_names(self.stmts_of(g))
+        c.ucast = ctx.ucast
         return c
 
     def inline_expr(self, call, ctx):
@@ -513,11 +630,37 @@ class Norm:
                 init = ("uninit",)
             else:
                 init = self.nx(s[3], env, ctx)
+                if ctx.ucast:
+                    dty = self.canon_type(s[1].replace("&", " "), ctx.cls)
+                    if dty in UNSIGNED_BITS and init[0] not in ("num", "bool", "ucast") and not const_like(init):
+                        init = ("ucast", UNSIGNED_BITS[dty], init)
             raw = ctx.fresh(name)
+            if init[0] in ("num", "bool") and name not in ctx.mutated:
+                ctx.const_locals[raw] = init
             env2 = dict(env)
             env2[name] = ("id", raw)
             rest = k.fall(env2)
             return self.mk_let(raw, init, rest, ctx, name in ctx.mutated)
+        if kind == "arraydecl":
+            _, ety, name, size_e, items, is_const, is_std = s
+            if not is_const:
+                raise TranslateError("array `%s` is not const / constexpr: not supported" % name)
+            if name in ctx.mutated:
+                raise TranslateError("array `%s`: its address is taken" % name)
+            env2 = dict(env)
+            env2[name] = self.make_table(ety, name, size_e, items, is_std, env, ctx)
+            return k.fall(env2)
+        if kind == "sassert":
+            try:
+                c = self.nx(s[1], env, ctx)
+                for raw, init in ctx.const_locals.items():
+                    c = subst_e(c, raw, init)
+                v = self.const_eval(c, "static_assert")
+            except TranslateError:
+                v = 1                   # no run-time meaning: what cannot be evaluated here is left to the compiler
+            if not v:
+                raise TranslateError("a static_assert does not hold: the code does not compile")
+            return k.fall(env)
         if kind == "break":
             if k.brk is None:
                 raise TranslateError("break outside a loop or switch")
@@ -649,8 +792,9 @@ class Norm:
         return ("loop", ("range", var, start, c[1], bound), body, after(), lvl)
 
     # ------------------------------------------------------------------ entry
-    def beh(self, func, keep=frozenset(), rename=True, members=None):
+    def beh(self, func, keep=frozenset(), rename=True, members=None, ucast=False):
         ctx = Ctx(func, frozenset(keep), 0)
+        ctx.ucast = ucast
         stmts = self.stmts_of(func)
         ctx.mutated = mutated_names(stmts)
         env = {}
@@ -689,6 +833,18 @@ class Norm:
 
 # --------------------------------------------------------------------------------------------------
 # helpers on expressions and trees
+
+def origin_of(f):
+    """the function template an instantiation was made from (the function itself otherwise)"""
+    return getattr(f, "_origin", f)
+
+
+UNSIGNED_BITS = {"size_t": 64, "std::size_t": 64, "unsigned long": 64, "long unsigned int": 64, "unsigned long int": 64,
+                 "unsigned long long": 64, "long long unsigned int": 64, "uint64_t": 64, "std::uint64_t": 64,
+                 "unsigned": 32, "unsigned int": 32, "uint32_t": 32, "std::uint32_t": 32, "id_t": 32,
+                 "unsigned short": 16, "uint16_t": 16, "std::uint16_t": 16, "short unsigned int": 16,
+                 "unsigned char": 8, "uint8_t": 8, "std::uint8_t": 8}
+
 
 class Frozen:
     def __init__(self, env):
@@ -869,6 +1025,11 @@ def try_inline(name, init, tree, pure_init, norm, ctx):
         # comparisons are re-oriented after substitution so that the result does not depend on the local's name
         if isinstance(e, tuple) and e and e[0] == "bin" and e[1] == "==":
             return cmp_norm("==", renorm(e[2]), renorm(e[3]))
+        if isinstance(e, tuple) and len(e) == 3 and e[0] == "index" and isinstance(e[1], tuple) and e[1][:1] == ("table",):
+            i = renorm(e[2])
+            if i[0] == "num" or const_like(i):
+                return norm.table_elem(e[1], i)
+            return ("index", e[1], i)
         if isinstance(e, tuple):
             return tuple(renorm(x) for x in e)
         if isinstance(e, list):
@@ -1025,6 +1186,12 @@ def show(e):
         return "%s %s(%s)" % (k, e[1], show(e[2]))
     if k == "delete":
         return "delete %s" % show(e[1])
+    if k == "table":
+        return "{%s}" % ", ".join(show(x) for x in e[2])
+    if k == "esize":
+        return "sizeof(%s)" % e[1]
+    if k == "ucast":
+        return "unsigned%d(%s)" % (e[1], show(e[2]))
     if k == "ret":
         return "return %s;" % show(e[1])
     if k == "end":
